@@ -14,6 +14,7 @@
   heap-buffer-overflow in `LogStreamBuffer::overflow`).
 -/
 import Babylon.Log.LemmasFinal
+import Babylon.Log.LemmasApp
 
 namespace Babylon.Properties.C20
 open Babylon.Log Babylon.Gen.Log Babylon.Core
@@ -68,7 +69,7 @@ theorem entry_bytes_exact {α : Type} (ps a0 : Nat) (ops : List (Op α)) (hfit :
 
 /-- **entry_pages_once.**  Every page allocated for the entry — data pages and page-table pages —
 appears in the scatter list exactly once and nothing else does; the zero-length elements are exactly
-the page-table pages; every element is at most a page long. -/
+the page-table pages. -/
 theorem entry_pages_once {α : Type} (ps a0 : Nat) (ops : List (Op α)) (hfit : Fits ps (bytesOf ops).length) :
     ∃ iov, appendToIovec (Stream.finish ps a0 ops).buf.entry ps = some iov ∧
       (iov.map Prod.fst).Perm (Stream.finish ps a0 ops).buf.allocs ∧
@@ -160,5 +161,103 @@ example : Fits 32 (K * 32 + 5 * 32 + 7) ∧
       some [(K - 1, 32), (K, 32), (K + 2, 32), (K + 1, 0), (K + 3, 32), (K + 5, 32), (K + 6, 32), (K + 4, 0),
             (K + 7, 7), (K + 8, 0)] := by
   refine ⟨⟨by decide, fun _ => by decide⟩, by decide +kernel⟩
+
+/-! ### Part B — abstract event model of `AsyncFileAppender` (Babylon/Log/Appender.lean)
+
+The theorem is about the *model*: the queue is replaced by its specification (C01: items are popped
+in ticket order, only once published), `writev` is complete, descriptors come from an oracle.  The
+real appender is tied to the model by sampling only (checks/C20.py: multi-threaded runs whose
+recorded rounds are replayed through `App.step`).
+-/
+
+open Babylon.Log.App in
+/-- Generated obligations for the appender: batch bound, chunk bound, stop-marker test, queue
+flags, statement order of `keep_writing` / `write_use_plain_writev` / `close`. -/
+theorem gen_appender_shapes :
+    iovMax = 1024 ∧ uioMaxIov = 1024 ∧
+    batchExpr = "::std::min<size_t>(UIO_MAXIOV,_queue.capacity())" ∧
+    writevChunkExpr = "::std::min<ssize_t>(IOV_MAX,iov.end()-iter)" ∧
+    stopMarkerSize = "0" ∧ writePushFlags = "true,false,false" ∧ popFlags = "false,false" ∧
+    skel_keep_writing = [.call "capacity", .call "try_pop_n", .call "destination", .call "append_to_iovec",
+      .call "check_and_get_file_descriptor", .call "close", .call "write_use_plain_writev", .call "usleep"] ∧
+    skel_write_use_plain_writev = [.call "writev", .call "deallocate", .call "clear", .call "clear"] ∧
+    skel_close = [.call "joinable", .call "push", .call "join"] ∧ skel_write = [.call "push"] := by decide
+
+open Babylon.Log.App in
+/-- **appender_each_once_ordered.**  Take any event history of the model (any number of logging
+threads reserving / publishing entries, `close()`, any batching `round n1 n2 fds` of the writer with
+any descriptors, i.e. any rotation) after which `keep_writing` has returned.  Let `pre` be the
+entries whose `write()` took its queue ticket before `close()` did (`hist` up to the stop marker).
+Then there is a list `post` of entries ticketed *after* the marker (empty when nothing was written
+after `close()`) such that
+* every file object received exactly the scatter lists of its entries of `pre ++ post`, each once,
+  whole (unmixed) and in ticket order;
+* at the granularity of `write_use_plain_writev` executions the same holds for whole entries, so
+  each entry went to a single descriptor, in `writev` calls of 1…`IOV_MAX` elements;
+* entries of one thread are in `pre` in the order the thread wrote them;
+* the pages handed back to the allocator are, as a multiset, exactly the pages of `pre ++ post`. -/
+theorem appender_each_once_ordered (capacity : Nat) (evs : List Ev) (s : State)
+    (hrun : run (init capacity) evs = some s) (hwf : ∀ e ∈ evs, e.WF) (hexit : s.exited = true) :
+    ∃ post, post.Sublist ((s.hist.dropWhile nzs).drop 1) ∧
+      (∀ f, written s f = ((s.hist.takeWhile nzs ++ post).filter (·.file = f)).flatMap (·.iov)) ∧
+      (∀ f, (s.out.filter (·.file = f)).flatMap (·.items) = (s.hist.takeWhile nzs ++ post).filter (·.file = f)) ∧
+      (∀ x ∈ s.out, FlushOk x) ∧
+      (s.hist.takeWhile nzs).Pairwise (fun a b => a.tid = b.tid → a.seq < b.seq) ∧
+      s.freed.Perm (pagesOf (s.hist.takeWhile nzs ++ post)) := by
+  have h := run_AInv evs (init_AInv capacity) hwf hrun
+  obtain ⟨post, hp, hsub⟩ := h.exit_spec hexit
+  refine ⟨post, hsub, ?_, ?_, h.flushOk, ?_, ?_⟩
+  · intro f
+    unfold written
+    rw [flushes_cat _ (fun x hx => h.flushOk x (List.mem_filter.1 hx).1), h.outItems f, hp]
+  · intro f; rw [h.outItems f, hp]
+  · have hsubl : (s.hist.takeWhile nzs).Sublist s.hist := List.takeWhile_sublist nzs
+    have hpw := List.Pairwise.sublist hsubl h.order
+    have hall : ∀ a ∈ s.hist.takeWhile nzs, a.size ≠ 0 := by
+      intro a ha
+      have hall' := List.all_eq_true.1 (List.all_takeWhile (l := s.hist) (p := nzs)) a ha
+      simpa [nzs] using hall'
+    refine List.Pairwise.imp_of_mem ?_ hpw
+    intro a b ha hb hab htid
+    exact hab (hall a ha) (hall b hb) htid
+  · rw [← hp]; exact h.freedPerm
+
+open Babylon.Log.App in
+/-- When nothing is written after `close()` the files hold exactly the entries written before it. -/
+theorem appender_no_write_after_close (capacity : Nat) (evs : List Ev) (s : State)
+    (hrun : run (init capacity) evs = some s) (hwf : ∀ e ∈ evs, e.WF) (hexit : s.exited = true)
+    (hlast : (s.hist.dropWhile nzs).drop 1 = []) :
+    (∀ f, written s f = ((s.hist.takeWhile nzs).filter (·.file = f)).flatMap (·.iov)) ∧
+    s.freed.Perm (pagesOf (s.hist.takeWhile nzs)) := by
+  obtain ⟨post, h1, h2, _, _, _, h6⟩ := appender_each_once_ordered capacity evs s hrun hwf hexit
+  rw [hlast] at h1
+  have : post = [] := List.eq_nil_of_sublist_nil h1
+  subst this
+  simp only [List.append_nil] at h2 h6
+  exact ⟨h2, h6⟩
+
+open Babylon.Log.App in
+/-- `hist` is the sequence of `reserve` / `close` events in the order they happened: ticket order. -/
+theorem appender_hist_is_ticket_order (capacity : Nat) (evs : List Ev) (s : State)
+    (hrun : run (init capacity) evs = some s) :
+    s.hist.map itemKey = evs.filterMap evItem := by
+  have := run_hist evs hrun
+  simpa [init] using this
+
+/-- Non-vacuity: two threads, two files, an entry longer than one `writev`, rotation of file 7
+between the two rounds, `close()` — the hypotheses of the theorem are satisfiable and the run exits. -/
+def exampleEvents : List Ev :=
+  [.reserve 1 7 40 [(0, 32), (1, 8)], .reserve 2 9 8 [(2, 8)], .publish 1, .publish 0, .round 2 0 [3, 4],
+   .reserve 1 7 12000 ((List.range 1500).map (fun i => (100 + i, 8))), .publish 0, .close, .publish 1,
+   .round 1 1 [5, 4]]
+
+example : (∀ e ∈ exampleEvents, e.WF) ∧
+    ((run (init 4) exampleEvents).map (fun s => (s.exited,
+        s.out.map (fun x => (x.file, x.fd, x.calls.map List.length)), s.freed.length))) =
+      some (true, [(7, 3, [2]), (9, 4, [1]), (7, 5, [1024, 476])], 1503) := by
+  refine ⟨?_, by decide +kernel⟩
+  intro e he
+  simp only [exampleEvents, List.mem_cons, List.not_mem_nil, or_false] at he
+  rcases he with rfl | rfl | rfl | rfl | rfl | rfl | rfl | rfl | rfl | rfl <;> simp [Ev.WF]
 
 end Babylon.Properties.C20
